@@ -3,4 +3,4 @@
 From Coq Require Import ExtrOcamlBasic.
 From HidV Require Import Machine Halts VM Driver.
 
-Extraction "../ocaml/hidvm_core.ml" run_program mon_none Machine.lw Machine.getb.
+Extraction "../ocaml/hidvm_core.ml" run_program mon_none mon_entitled Machine.lw Machine.getb.
